@@ -82,6 +82,8 @@ package rapidproto
 //@   property C18
 //@   mode math
 //@   no-safety
+//@   note field mappers are honoured: the loop over opts.FieldMaps moves on to the next mapper only when the current one did not answer (an answer is returned as it is)
+//@   loop 1: continues only if !ok
 
 //@ func GeneratorOptions.genFieldMask
 //@   property C18
